@@ -546,7 +546,8 @@ func (o *ObjectSchema) applySubObjectDefaultValues(propertyID string, property *
 
 func (o *ObjectSchema) convertData(v reflect.Value) (map[string]any, error) {
 	rawData := make(map[string]any, v.Len())
-	for _, key := range v.MapKeys() {
+	for iter := v.MapRange(); iter.Next(); {
+		key := iter.Key()
 		stringKey, ok := key.Interface().(string)
 		if !ok {
 			return nil, o.invalidKeyError(key.Interface())
@@ -554,7 +555,7 @@ func (o *ObjectSchema) convertData(v reflect.Value) (map[string]any, error) {
 		if _, ok := o.PropertiesValue[stringKey]; !ok {
 			return nil, o.invalidKeyError(stringKey)
 		}
-		rawData[stringKey] = v.MapIndex(key).Interface()
+		rawData[stringKey] = iter.Value().Interface()
 	}
 	for propertyID := range o.PropertiesValue {
 		_, isSet := rawData[propertyID]
